@@ -3,6 +3,7 @@ import Driver.Proto
 import Driver.OpsItv
 import Driver.OpsBox
 import Driver.OpsBwd
+import Driver.OpsExpr
 open Ibex Ibex.Proto
 
 def dispatch (op : String) (ins outs : List String) : String :=
@@ -13,6 +14,9 @@ def dispatch (op : String) (ins outs : List String) : String :=
   | some r => r
   | none =>
   match Ibex.Driver.opsBwd op ins outs with
+  | some r => r
+  | none =>
+  match Ibex.Driver.opsExpr op ins outs with
   | some r => r
   | none => "bad-op"
 
